@@ -1,3 +1,149 @@
-/-! # C02 — property theorems (stub: nothing stated yet) -/
+import SR.Proofs.Checker.Verdict
+import SR.Proofs.Checker.Once
+/-!
+# C02 — always/sometimes verdicts are exact once a check completes
+
+Property theorems only; model `SR/Checker/Machine.lean`.  "Completed": `Quiescent` (join returned) and either
+no job was ever dropped (`early = false`) or every property has a discovery (`allDiscovered`, the documented
+second reason for `is_done`).  Under symmetry reduction the same holds for conditions invariant under the
+symmetry relation (`C02_*_modulo`).
+-/
 namespace SR.C02
+open SR SR.Checker
+
+variable {σ κ α : Type} [DecidableEq κ] (P : Params σ κ α)
+
+/-- the run completed: joined, and either exhaustive or with a discovery for every property -/
+def Completed (s : St σ κ) : Prop := Quiescent s ∧ (s.early = false ∨ allDiscovered P s = true)
+
+theorem allDiscovered_iff (s : St σ κ) :
+    allDiscovered P s = true ↔ ∀ i, i < P.props.length → hasDisc s.disc i = true := by
+  simp [allDiscovered, List.all_eq_true]
+
+/-- general form: `R` transitive simulation containing key-equality on reachable states; witnesses are
+    `R`-invariant.  Discovery for property `i` ⇔ some reachable state is a witness. -/
+theorem C02_verdict_modulo (R : σ → σ → Prop)
+    (hkey : ∀ a b, P.M.Reach a → P.M.Reach b → P.key a = P.key b → R a b)
+    (htrans : ∀ a b c, R a b → R b c → R a c)
+    (hsim : ∀ a b, R a b → ∀ a' ∈ P.M.succB a, ∃ b' ∈ P.M.succB b, R a' b')
+    (cs : List Choice) (hc : Completed P (run P cs))
+    (i : Nat) (pr : Prop' σ) (hpr : P.props[i]? = some pr) (hinv : ∀ a b, R a b → pr.cond a = pr.cond b)
+    (hexp : pr.exp ≠ .eventually) :
+    hasDisc (run P cs).disc i = true ↔ ∃ t, P.M.Reach t ∧ Wit pr t := by
+  constructor
+  · intro hd
+    unfold hasDisc at hd
+    obtain ⟨e, he, hei⟩ := List.any_eq_true.1 hd
+    have hei : e.1 = i := by simpa using hei
+    subst hei
+    obtain ⟨hp, _, hw⟩ := (sinv_run (P := P) cs).disc e he
+    obtain ⟨hwa, hws⟩ := hw pr hpr
+    cases hx : pr.exp with
+    | always =>
+      obtain ⟨s, hl, hc'⟩ := hwa hx
+      exact ⟨s, Sys.reach_last_of_isPath hp hl, Or.inl ⟨hx, hc'⟩⟩
+    | sometimes =>
+      obtain ⟨s, hl, hc'⟩ := hws hx
+      exact ⟨s, Sys.reach_last_of_isPath hp hl, Or.inr ⟨hx, hc'⟩⟩
+    | eventually => exact absurd hx hexp
+  · rintro ⟨t, ht, hw⟩
+    rcases hc.2 with he | hall
+    · obtain ⟨u, hu, hr⟩ := complete_of_quiescent (P := P) R hkey htrans hsim cs hc.1 he t ht
+      have hwu : Wit pr u := by
+        unfold Wit at hw ⊢
+        rw [← hinv t u hr]; exact hw
+      exact (vinv_run (P := P) cs).done u hu i pr hpr hwu
+    · exact (allDiscovered_iff P _).1 hall i (List.getElem?_eq_some_iff.1 hpr).1
+
+/-- **always**: a counterexample is reported iff some reachable in-boundary state violates the property. -/
+theorem C02_always (hinj : ∀ a b, P.M.Reach a → P.M.Reach b → P.key a = P.key b → a = b)
+    (cs : List Choice) (hc : Completed P (run P cs)) (i : Nat) (pr : Prop' σ)
+    (hpr : P.props[i]? = some pr) (hexp : pr.exp = .always) :
+    hasDisc (run P cs).disc i = true ↔ ∃ t, P.M.Reach t ∧ pr.cond t = false := by
+  rw [C02_verdict_modulo P Eq hinj (fun _ _ _ h1 h2 => h1.trans h2) (fun a b hab a' ha' => ⟨a', hab ▸ ha', rfl⟩)
+    cs hc i pr hpr (fun a b hab => by rw [hab]) (by rw [hexp]; exact fun e => by cases e)]
+  constructor
+  · rintro ⟨t, ht, (⟨_, h⟩ | ⟨he, _⟩)⟩
+    · exact ⟨t, ht, h⟩
+    · rw [hexp] at he; cases he
+  · rintro ⟨t, ht, h⟩; exact ⟨t, ht, Or.inl ⟨hexp, h⟩⟩
+
+/-- **sometimes**: an example is reported iff some reachable in-boundary state satisfies the property. -/
+theorem C02_sometimes (hinj : ∀ a b, P.M.Reach a → P.M.Reach b → P.key a = P.key b → a = b)
+    (cs : List Choice) (hc : Completed P (run P cs)) (i : Nat) (pr : Prop' σ)
+    (hpr : P.props[i]? = some pr) (hexp : pr.exp = .sometimes) :
+    hasDisc (run P cs).disc i = true ↔ ∃ t, P.M.Reach t ∧ pr.cond t = true := by
+  rw [C02_verdict_modulo P Eq hinj (fun _ _ _ h1 h2 => h1.trans h2) (fun a b hab a' ha' => ⟨a', hab ▸ ha', rfl⟩)
+    cs hc i pr hpr (fun a b hab => by rw [hab]) (by rw [hexp]; exact fun e => by cases e)]
+  constructor
+  · rintro ⟨t, ht, (⟨he, _⟩ | ⟨_, h⟩)⟩
+    · rw [hexp] at he; cases he
+    · exact ⟨t, ht, h⟩
+  · rintro ⟨t, ht, h⟩; exact ⟨t, ht, Or.inr ⟨hexp, h⟩⟩
+
+/-- `is_done()`: the market is closed (nothing pending, nobody working) or everything is discovered -/
+def isDone (s : St σ κ) : Bool := (s.frontier.isEmpty && s.active.isEmpty) || allDiscovered P s
+
+/-- `assert_properties()` does not panic: no discovery for any always/eventually property (and the check is
+    done), a discovery for every sometimes property -/
+def assertPropertiesOk (s : St σ κ) : Bool :=
+  (List.range P.props.length).all fun i =>
+    match P.props[i]? with
+    | some pr => if pr.exp == .sometimes then hasDisc s.disc i else (!hasDisc s.disc i && isDone P s)
+    | none => true
+
+/-- **assert_properties** (property lists of always/sometimes properties): it succeeds exactly when every
+    always-property holds on all reachable states and every sometimes-property is witnessed; and `is_done`. -/
+theorem C02_assert (hinj : ∀ a b, P.M.Reach a → P.M.Reach b → P.key a = P.key b → a = b)
+    (hne : ∀ pr ∈ P.props, pr.exp ≠ .eventually)
+    (cs : List Choice) (hc : Completed P (run P cs)) :
+    isDone P (run P cs) = true ∧
+    (assertPropertiesOk P (run P cs) = true ↔
+      (∀ (i : Nat) (pr : Prop' σ), P.props[i]? = some pr → pr.exp = .always → ∀ t, P.M.Reach t → pr.cond t = true) ∧
+      (∀ (i : Nat) (pr : Prop' σ), P.props[i]? = some pr → pr.exp = .sometimes → ∃ t, P.M.Reach t ∧ pr.cond t = true)) := by
+  have hdone : isDone P (run P cs) = true := by
+    unfold isDone; rw [hc.1.1, hc.1.2]; simp
+  refine ⟨hdone, ?_⟩
+  unfold assertPropertiesOk
+  rw [List.all_eq_true]
+  constructor
+  · intro h
+    refine ⟨?_, ?_⟩
+    · intro i pr hpr hexp t ht
+      have hlt : i < P.props.length := (List.getElem?_eq_some_iff.1 hpr).1
+      have := h i (List.mem_range.2 hlt)
+      rw [hpr] at this
+      simp only [hexp] at this
+      have hnd : hasDisc (run P cs).disc i = false := by
+        simp at this; exact this.1
+      cases hct : pr.cond t with
+      | true => rfl
+      | false =>
+        have := (C02_always P hinj cs hc i pr hpr hexp).2 ⟨t, ht, hct⟩
+        rw [hnd] at this; cases this
+    · intro i pr hpr hexp
+      have hlt : i < P.props.length := (List.getElem?_eq_some_iff.1 hpr).1
+      have := h i (List.mem_range.2 hlt)
+      rw [hpr] at this
+      simp only [hexp] at this
+      exact (C02_sometimes P hinj cs hc i pr hpr hexp).1 (by simpa using this)
+  · rintro ⟨ha, hs⟩ i hi
+    have hlt := List.mem_range.1 hi
+    have hpr : P.props[i]? = some P.props[i] := List.getElem?_eq_getElem hlt
+    rw [hpr]
+    have hmem : P.props[i] ∈ P.props := List.getElem_mem hlt
+    cases hexp : P.props[i].exp with
+    | sometimes =>
+      simp only [hexp, beq_self_eq_true, if_true]
+      exact (C02_sometimes P hinj cs hc i _ hpr hexp).2 (hs i _ hpr hexp)
+    | always =>
+      have hnd : hasDisc (run P cs).disc i = false := by
+        cases hd : hasDisc (run P cs).disc i with
+        | false => rfl
+        | true =>
+          obtain ⟨t, ht, hcf⟩ := (C02_always P hinj cs hc i _ hpr hexp).1 hd
+          rw [ha i _ hpr hexp t ht] at hcf; cases hcf
+      simp [hnd, hdone, hexp]
+    | eventually => exact absurd hexp (hne _ hmem)
+
 end SR.C02
